@@ -203,6 +203,20 @@ Theorem C06_overcredit_shortfall_refuted : exists reward cap1 cap2, cap1 + cap2 
 Proof. exact overcredit_shortfall_refuted. Qed.
 Print Assumptions C06_overcredit_shortfall_refuted.
 
+(* recovery-token holders: truncated shares of duplicate-free holders never overdraw the reward ... *)
+Theorem C06_rr_allocate_safe_partial : forall amount supply bal listed, 0 <= amount -> 0 < supply -> (forall h, 0 <= bal h) ->
+  zsum (map bal listed) <= supply -> is_panic (rr_allocate amount supply bal listed) = false.
+Proof. exact rr_allocate_safe. Qed.
+Print Assumptions C06_rr_allocate_safe_partial.
+(* ... but the holder list is a PREFIX iteration: on this tree (flag regenerated) either the listing is exact, or a holder of
+   rr/node1 and rr/node10 is listed twice for rr/node1 and, holding more than half, overdraws the reward: panic in BeginBlock *)
+Theorem C06_rr_holders_on_this_tree :
+  if rr_holders_exact_denom then (forall d, rr_listed rr_holders_exact_denom d [("rr/node1", 4); ("rr/node10", 4)] = (if String.eqb d "rr/node1" then [4] else if String.eqb d "rr/node10" then [4] else []))
+  else (exists index bal, rr_listed rr_holders_exact_denom "rr/node1" index = [4; 4] /\ (forall h, 0 <= bal h) /\ bal 4 <= 10 /\
+        rr_allocate 51 10 bal (rr_listed rr_holders_exact_denom "rr/node1" index) = Panic "neg-coin").
+Proof. exact (rr_by_flag rr_holders_exact_denom). Qed.
+Print Assumptions C06_rr_holders_on_this_tree.
+
 Theorem C06_upgrade_halt_only_when_due : forall due processed instate h skip,
   is_panic (upgrade_begin due processed instate h skip) = true -> due = true /\ processed = true.
 Proof. exact upgrade_halt_only_when_due. Qed.
@@ -450,7 +464,7 @@ Definition audit_table : list (string * string * nat * string * list string) := 
   ("x/recovery/keeper.Keeper.ClaimRewards", "panic", 1%nat, "unreachable: guards a store / codec invariant (record written together with its index)", ["481ac89eced8ac7f"]);
   ("x/recovery/keeper.Keeper.GetRRTokenHolderRewards", "panic", 1%nat, "unreachable: guards a store / codec invariant (record written together with its index)", ["8279fa45ce06c49d"]);
   ("x/recovery/keeper.Keeper.GetRecoveryToken", "must", 1%nat, "decodes bytes (or re-parses an address) that this module stored itself with the matching Marshal -- audited by kind", ["68cd1241d1ebbd98"]);
-  ("x/recovery/keeper.Keeper.IncreaseRecoveryTokenUnderlying", "sub", 1%nat, "guarded by TRUNCATION in calcPortion: every allocation is floor(amount * balance / supply) per denom and the registered holders' balances sum to at most the supply, so the allocations sum to at most amount; exercised in real BeginBlocks by the recovery-rewards histories (1..3 holders owning all / part of the supply, odd fees in several denoms)", ["5f101af1a595a034"]);
+  ("x/recovery/keeper.Keeper.IncreaseRecoveryTokenUnderlying", "sub", 1%nat, "Halt.rr_allocate: safe for DUPLICATE-FREE holders (truncated shares, balances sum to at most the supply: C06_rr_allocate_safe_partial); REACHABLE while GetRRTokenHolders lists by key prefix: a holder of rr/node1 and rr/node10 is listed twice for rr/node1 (finding IncreaseRecoveryTokenUnderlying:neg-coin, pending fix C06-rr-holder-prefix; flag rr_holders_exact_denom, C06_rr_holders_on_this_tree); recovery-rewards and recovery-rewards-prefix histories", ["5f101af1a595a034"]);
   ("x/recovery/keeper.Keeper.SetRecoveryToken", "must", 1%nat, "decodes bytes (or re-parses an address) that this module stored itself with the matching Marshal -- audited by kind", ["963cbc98673abaf4"]);
   ("x/recovery/keeper.calcPortion", "newcoin", 1%nat, "non-negative: product of non-negative amounts divided by a positive supply, truncated", ["54997deb1d3f4cda"]);
   ("x/recovery/keeper.calcPortion", "quo", 1%nat, "divides by the RR supply: calcPortion is only called for registered holders, UnregisterNotEnoughAmountHolder has just removed every holder below 1000000 units, so a remaining holder implies supply >= 1000000", ["54997deb1d3f4cda"]);
